@@ -235,6 +235,7 @@ def run(chk):
     C15.ob_abs(chk, P)
     from checks import C14, C16, C17
     C14.ob_sort(chk, P, 3)                      # comparator over incomparable kinds must not panic
+    C14.ob_sort_comparator(chk, P)              # ... and must be a total order, or std's sort may panic on long arrays
     C14.ob_uniq(chk, P, 3)
     C16.ob_escape(chk, P, 3)                    # byte-offset slicing in escape()
     C17.ob_unknown_and_errors(chk, P)           # the date filter's format string: unknown / malformed directives never panic
